@@ -107,38 +107,34 @@ Proof.
 Qed.
 
 Lemma wf_update_parts a kw : wf_op (Update a kw) = true ->
-  (a = ASelf /\ kw = []) \/ (a <> ASelf /\ wf_arg a = true /\ NoDup (map fst kw)).
+  wf_arg a = true /\ NoDup (map fst kw).
 Proof.
-  destruct a; simpl; intro H.
-  - right. repeat split; [discriminate | apply nodup_b_NoDup; exact H].
-  - right. apply andb_true_iff in H as [H1 H2]. repeat split; [discriminate | exact H1 | apply nodup_b_NoDup; exact H2].
-  - right. repeat split; [discriminate | apply nodup_b_NoDup; exact H].
-  - left. destruct kw; [tauto | discriminate].
+  simpl. intro H. apply andb_true_iff in H as [H1 H2]. split; [exact H1 | apply nodup_b_NoDup; exact H2].
 Qed.
 
 Lemma update_ok s o a kw : Inv s -> Inv o -> wf_op (Update a kw) = true ->
   exists s', m_update s o a kw = Ok s' /\ Inv s' /\ abs s' = spec_update (abs s) (abs o) a kw.
 Proof.
-  intros Hs Ho Hwf. destruct (wf_update_parts a kw Hwf) as [[-> ->]|[Hne [Hwa Hkw]]].
-  - exists s. simpl. unfold spec_update, replace_with. simpl. rewrite remove_keys_nil, app_nil_r.
-    split; [reflexivity | split; [assumption | reflexivity]].
-  - unfold m_update, spec_update. destruct a as [l|m| |]; [| | |contradiction].
-    + destruct (upd_pairs_ok l s [] (abs s) [] Hs) as [s1 [E1 [Hs1 Ha1]]].
-      * simpl. rewrite remove_keys_nil, app_nil_r. reflexivity.
-      * simpl. tauto.
-      * rewrite E1. simpl. simpl in Ha1.
-        destruct (upd_map_replace s1 kw Hs1 Hkw) as [s' [E' [Hs' Ha']]].
-        exists s'. rewrite Ha', Ha1. (split; [assumption | split; [assumption | assumption || reflexivity]]).
-    + simpl in Hwa. apply nodup_b_NoDup in Hwa.
-      destruct (upd_map_replace s m Hs Hwa) as [s1 [E1 [Hs1 Ha1]]]. rewrite E1. simpl.
+  intros Hs Ho Hwf. destruct (wf_update_parts a kw Hwf) as [Hwa Hkw].
+  unfold m_update, spec_update. destruct a as [l|m| |].
+  - destruct (upd_pairs_ok l s [] (abs s) [] Hs) as [s1 [E1 [Hs1 Ha1]]].
+    + simpl. rewrite remove_keys_nil, app_nil_r. reflexivity.
+    + simpl. tauto.
+    + rewrite E1. simpl. simpl in Ha1.
       destruct (upd_map_replace s1 kw Hs1 Hkw) as [s' [E' [Hs' Ha']]].
       exists s'. rewrite Ha', Ha1. (split; [assumption | split; [assumption | assumption || reflexivity]]).
-    + destruct (del_present_ok (m_iterkeys o) s Hs) as [s1 [E1 [Hs1 Ha1]]]. rewrite E1. simpl.
-      destruct (add_all_ok (m_items o) s1 Hs1) as [Hs2 Ha2].
-      destruct (upd_map_replace _ kw Hs2 Hkw) as [s' [E' [Hs' Ha']]].
-      exists s'. rewrite Ha', Ha2, Ha1. split; [assumption | split; [assumption|]].
-      f_equal. unfold replace_with. f_equal. rewrite iterkeys_correct.
-      apply remove_keys_ext. intro k. apply keys1_In.
+  - simpl in Hwa. apply nodup_b_NoDup in Hwa.
+    destruct (upd_map_replace s m Hs Hwa) as [s1 [E1 [Hs1 Ha1]]]. rewrite E1. simpl.
+    destruct (upd_map_replace s1 kw Hs1 Hkw) as [s' [E' [Hs' Ha']]].
+    exists s'. rewrite Ha', Ha1. (split; [assumption | split; [assumption | assumption || reflexivity]]).
+  - destruct (del_present_ok (m_iterkeys o) s Hs) as [s1 [E1 [Hs1 Ha1]]]. rewrite E1. simpl.
+    destruct (add_all_ok (m_items o) s1 Hs1) as [Hs2 Ha2].
+    destruct (upd_map_replace _ kw Hs2 Hkw) as [s' [E' [Hs' Ha']]].
+    exists s'. rewrite Ha', Ha2, Ha1. split; [assumption | split; [assumption|]].
+    f_equal. unfold replace_with. f_equal. rewrite iterkeys_correct.
+    apply remove_keys_ext. intro k. apply keys1_In.
+  - destruct (upd_map_replace s kw Hs Hkw) as [s' [E' [Hs' Ha']]].
+    exists s'. (split; [assumption | split; [assumption | assumption || reflexivity]]).
 Qed.
 
 Lemma update_extend_ok s o a kw : Inv s -> Inv o ->
